@@ -38,7 +38,7 @@ fn main() {
             info[1] = addr_val(e["info1"].as_str().unwrap(), 0x1000);
             info[2] = 0xC000_009A;
             spec.exception = Some(ExcSpec { tid: e["tid"].as_u64().unwrap() as u32, has_ctx: e["hasCtx"].as_bool().unwrap(), ctx_ok: e["ctxOk"].as_bool().unwrap(), ctx_ip: EXC_IP, ctx_sp: 0x10000,
-                                            code, flags: 0, address: addr_val(e["addr"].as_str().unwrap(), EXC_IP), nparams: e["np"].as_u64().unwrap() as u32, info });
+                                            code, flags: 0, address: addr_val(e["addr"].as_str().unwrap(), EXC_IP), nparams: e["np"].as_u64().unwrap() as u32, info, ctx_patch: vec![] });
         }
         if c["bp"]["k"] == "some" {
             let f = |v: u64| if v == 0 { None } else { Some(v as u32) };
